@@ -195,6 +195,47 @@ fn engine_limit(side: Side, second: u8) -> impl Fn() {
     }
 }
 
+/// engine: a WHOLE liquidation (partial-liquidation ratio 0) forwards the liquidator's limit to
+/// the vAMM unchanged, and executes only if the limit is satisfied by the quoted amount
+fn engine_liquidation_limit(side: Side, units: u128) -> impl Fn() {
+    move || {
+        let p = P::new("C17", side.clone(), 0);
+        let mut cfg = p.cfg();
+        let d = cfg.d();
+        cfg.init_ratio = Uint128::new(d / 10);
+        cfg.maint_ratio = crate::tpl::ratio("maint", d, d / 20);
+        cfg.liq_fee = crate::tpl::ratio("liq_fee", d, d / 40);
+        symrt::assume(s(cfg.maint_ratio).le(c(d / 10)));
+        let mut r = p.run_cfg(cfg);
+        symrt::set_full(false);
+        let l = Uint128::new(10 * d);
+        if !r.step(Op::Open { who: ALICE, side: side.clone(), margin: Uint128::new(25 * d), lev: l, limit: Uint128::zero(), funds: None }).tx.ok {
+            return;
+        }
+        r.w.next_block(15);
+        if !r.step(Op::Open { who: BOB, side: opp(&side), margin: Uint128::new(units * d), lev: l, limit: Uint128::zero(), funds: None }).tx.ok {
+            return;
+        }
+        r.w.next_block(1000);
+        symrt::set_full(true);
+        let lim = amount("lim", d, true, 0);
+        let pos = r.w.position(0, ALICE).unwrap();
+        let q = r.w.output_amount(0, if side == Side::Buy { Direction::AddToAmm } else { Direction::RemoveFromAmm }, pos.size.value).ok();
+        let t = r.step(Op::Liquidate { by: LIQ, trader: ALICE, limit: lim });
+        let ms = t.tx.msgs_to("vamm");
+        // the swap message is the last message delivered to the vAMM (queries are not messages)
+        if let Some(m) = ms.iter().find(|m| m.get("swap_output").is_some() || m.get("swap_input").is_some()) {
+            if let Some((_, l)) = limit_of(m) {
+                prove_d("C17/engine-forwards-callers-limit-unchanged", l.eq(s(lim)), "liquidate-whole".to_string());
+            }
+        }
+        if let (true, Some(q)) = (t.tx.ok && t.post.pos[&(0, ALICE)].is_none(), q) {
+            let okc = if side == Side::Buy { s(q).ge(s(lim)) } else { s(q).le(s(lim)) };
+            prove_d("C17/engine-whole-liquidation-satisfies-limit", s(lim).eq(c(0)).or(okc), "liquidate-whole".into());
+        }
+    }
+}
+
 pub fn scenarios(_seed: u64) -> Vec<Scenario> {
     use Direction::*;
     use Kind::*;
@@ -209,6 +250,9 @@ pub fn scenarios(_seed: u64) -> Vec<Scenario> {
     for (side, sn) in [(Side::Buy, "long"), (Side::Sell, "short")] {
         for (k, kn) in [(0u8, "fresh"), (1, "increase"), (2, "reduce"), (3, "close"), (4, "close.over-band.ratio1")] {
             v.push(sc("C17", Tier::Quick, &format!("c17.engine.{}.{}", kn, sn), d2, 400, 120, engine_limit(side.clone(), k)));
+        }
+        for (rn, ru) in [("shallow", 5u128), ("deep", 45)] {
+            v.push(sc("C17", Tier::Quick, &format!("c17.engine.liquidate-whole.{}.{}", rn, sn), "engine: a whole liquidation (partial ratio 0; maintenance ratio and liquidation fee symbolic) with a symbolic limit: the limit inside the delivered vAMM sub-message equals the liquidator's and is satisfied when the liquidation executes", 400, 120, engine_liquidation_limit(side.clone(), ru)));
         }
     }
     v
